@@ -1,5 +1,6 @@
 import OSProofs.Props.C01
 import OSProofs.Props.C01b
+import OSProofs.CodeShaped
 #print axioms OS.C01_PL
 #print axioms OS.C01_BTF
 #print axioms OS.C01_BTP
@@ -15,3 +16,8 @@ import OSProofs.Props.C01b
 #print axioms OS.C01_rate_ranked
 #print axioms OS.C01_rate_ranked_full
 #print axioms OS.C01_rate_clamped
+#print axioms OS.plSumQCode_eq
+#print axioms OS.plSumQCode_eq_generic
+#print axioms OS.plSumQCode_eq_denseRanks
+#print axioms OS.plSumQCode_eq_range
+#print axioms OS.denseRanks_nondecreasing
